@@ -15,6 +15,26 @@ use swimos_recon::{print_recon, print_recon_compact, print_recon_pretty};
 use tokio_util::codec::Decoder;
 use vcore::*;
 
+// derived types whose body is delegated to a text after one or more attributes (the printers put the padding of their
+// strategy between the last attribute and the body)
+#[derive(swimos_form::Form, Debug, PartialEq, Clone)]
+struct Label {
+    #[form(body)]
+    text: String,
+}
+#[derive(swimos_form::Form, Debug, PartialEq, Clone)]
+struct AttrText {
+    #[form(attr)]
+    k: i32,
+    #[form(body)]
+    t: String,
+}
+#[derive(swimos_form::Form, Debug, PartialEq, Clone)]
+struct Holder {
+    inner: Label,
+    n: i32,
+}
+
 fn cps(s: &str) -> String {
     coq_list(s.chars().map(|c| (c as u32).to_string()))
 }
@@ -589,6 +609,10 @@ fn main() {
     typed!(Option<i32>, [None, Some(0), Some(-5)]);
     typed!(std::collections::HashMap<String, i32>, [std::collections::HashMap::new(), [("a".to_string(), 1)].into_iter().collect(), [("a b".to_string(), 1), ("true".to_string(), -2)].into_iter().collect()]);
     typed!(Value, [Value::Extant, Value::BigInt(BigInt::from(i64::MIN)), Value::Int64Value(i64::MIN)]);
+    let body_texts: Vec<String> = ["hello", "_x-1", "a", "true", "two words", "", "é", "x1", "1x", "a.b"].iter().map(|s| s.to_string()).chain(texts.iter().take(20).cloned()).collect();
+    typed!(Label, body_texts.iter().map(|t| Label { text: t.clone() }));
+    typed!(AttrText, body_texts.iter().enumerate().map(|(i, t)| AttrText { k: i as i32 - 3, t: t.clone() }));
+    typed!(Holder, body_texts.iter().enumerate().map(|(i, t)| Holder { inner: Label { text: t.clone() }, n: i as i32 }));
 
     // malformed and mutated inputs: no panic, incremental and one-shot agree on acceptance
     for _ in 0..args.cases {
